@@ -6,7 +6,6 @@ CONSTANTS
   Bug_HoldRequestAcrossMerge = FALSE
   Bug_NotifyOne = FALSE
   Bug_NoRescheduleAtEnd = FALSE
-  Bug_SlotNotCleared = FALSE
 INVARIANTS LockOrder SchedSane NoLostWaiter
 PROPERTIES EveryCallReturns WorkerComesBack
 CHECK_DEADLOCK TRUE
